@@ -14,7 +14,8 @@
 //!           hung or abandoned run never disturbs the next case.
 //! line:  DONE <maxgap_us> <ms> | ev;ev;...      (finalize returned Ok)
 //!        JOINED <maxgap_us> <ms> | ev;ev;...    (lower-case mode: all workers joined, run abandoned there)
-//!        HANG <quiet_ms> | ev;...               (no record was written for 20 s)
+//!        HANG <quiet_ms> | ev;...               (no record was written for HANG_SECS = 60 s)
+//!        SKIP hang-budget                       (two runs of this process already hung)
 //!   ev      the log record with ' ' -> ',', TAB -> '/', U+0001 -> '+'
 #[path = "../runner.rs"]
 mod runner;
@@ -75,8 +76,16 @@ fn fmt_log(log: &[String]) -> String {
 /// is 0.1 s (drain poll period) on an idle machine and 2.6 s with all 16 cores oversubscribed - 20x margin
 const HANG_SECS: u64 = 60;
 
+/// hung runs seen by this process: after HANG_BUDGET of them the remaining cases of the shard are skipped (each
+/// hung run costs HANG_SECS; the violation is already established and reported)
+static HANGS: std::sync::atomic::AtomicUsize = std::sync::atomic::AtomicUsize::new(0);
+const HANG_BUDGET: usize = 2;
+
 /// fork, run the scenario in the child, hand the result line back through a pipe
 pub fn run(t: &[&str]) -> String {
+    if HANGS.load(AO::SeqCst) >= HANG_BUDGET {
+        return "SKIP hang-budget".into();
+    }
     unsafe {
         let mut fds = [0i32; 2];
         if libc::pipe(fds.as_mut_ptr()) != 0 {
@@ -120,7 +129,11 @@ pub fn run(t: &[&str]) -> String {
         if out.is_empty() {
             return format!("CRASH child status {}", st);
         }
-        String::from_utf8_lossy(&out).replace('\n', " ")
+        let line = String::from_utf8_lossy(&out).replace('\n', " ");
+        if line.starts_with("HANG") {
+            HANGS.fetch_add(1, AO::SeqCst);
+        }
+        line
     }
 }
 
